@@ -403,14 +403,15 @@ func (dir fileSystem) List() (keys []uint, err error) {
 		return nil, err
 	}
 	defer f.Close()
-	names, err := f.Readdirnames(0)
+	entries, err := f.ReadDir(0)
 	if err != nil {
 		return nil, err
 	}
 
-	keys = make([]uint, 0, len(names))
-	for _, name := range names {
-		if len(name) != 5 {
+	keys = make([]uint, 0, len(entries))
+	for _, entry := range entries {
+		name := entry.Name()
+		if len(name) != 5 || entry.IsDir() {
 			continue
 		}
 		u, err := strconv.ParseUint(name, 16, 17)
